@@ -139,5 +139,17 @@ CLAIMS = {
     note="Trusted: sympy, z3, symbolic shims, lu_factor/lu_solve/solve contracts. Sizes fixed (2 equations, nt<=4), values symbolic; A=M/h^2+B/(2h)+K/3 "
          "re-parametrised as the free symbol (WLOG). Floats are reals. Not covered: global convergence rates for coupled/nonlinear systems.",
     technique="real solver classes executed on symbolic inputs against the documented recurrence evaluated independently (sympy polynomial identities modulo a determinant relation); z3 NRA for stability; series for order"),
+ "C15": dict(
+    text="The real frclim.ntfl runs on symbolic NON-symmetric 2-DOF (real and complex) apparent-mass arrays: the returned interface acceleration and force "
+         "satisfy both physical coupling statements at every frequency - source side Ms(As-A)=F (A=As-Ms^-1 F) and load side F=Ml A - which is the directly "
+         "coupled interface solution; R=diag((Ms+Ml)^-1 Ms), TAM=SAM+LAM, index order [dof,freq,dof], mismatched frequency vectors refused. The real "
+         "calcAM: recovery-matrix form, AM_j (T G_j T^T)=I for an abstract non-symmetric acceleration operator G_j=-W^2 Z_j^-1 (frequency solver under its "
+         "C02 contract); partition-vector form (non-ascending, non-contiguous boundary sets), AM[:,j,c] is the boundary force with which the real cb.cbtf "
+         "enforces a unit acceleration of boundary DOF c in the caller's order, and Z x=S^T AM e_c has boundary acceleration e_c; the real cbtf's solution "
+         "satisfies all rows of M a+B v+K d=(frc on b, 0 on q), v=iWd, a=-W^2 d, incl. 0 Hz. End-to-end (default solver construction, random free-free "
+         "systems) against a direct solve of the physically coupled system: bounded float check. One known finding (damped rigid-body modes).",
+    note="Trusted: sympy, symbolic shims, solve/inv contracts. Sizes fixed (2 interface DOF, 2 q-set modes, 1-3 frequencies), values symbolic. cbtf "
+         "precondition from its code: Craig-Bampton form (no b-q stiffness), diagonal q-q blocks. Floats are exact complex numbers. Not covered: the w->0 limit.",
+    technique="real functions executed on symbolic inputs; coupling/equilibrium residuals as rational identities (sympy); modular contract for the frequency solver; bounded float coupled-system check; known-finding witness replay"),
 }
 NOT_APPLICABLE = {}
